@@ -73,8 +73,9 @@ type concProg struct {
 	maxRef  int
 	hasExcl bool
 	hasPair bool
-	// the program can panic by design: a decode function panics, or a nil value
-	// of an interface type reaches DecodeExclusive / StoreOrLoadPair
+	// fnPanic: a decode function panics by design.  nilIface: a nil value of an interface
+	// type reaches DecodeExclusive / StoreOrLoadPair — no panic since commit e69b1c0 (C18-F1);
+	// a panic in such a program is reported under its own class key as a regression.
 	nilIface bool
 	fnPanic  bool
 }
